@@ -62,6 +62,39 @@ class PolarizationState:
         """
         return self.__str__()
 
+    def to_dict(self):
+        """
+        Returns a dictionary representation of the polarization state.
+
+        Returns:
+            dict: The dictionary representation of the polarization state.
+        """
+        return {
+            'is_polarized': self.is_polarized,
+            'Ex': self.Ex,
+            'Ey': self.Ey,
+            'phase_x': self.phase_x,
+            'phase_y': self.phase_y
+        }
+
+    @classmethod
+    def from_dict(cls, data):
+        """
+        Creates a polarization state from a dictionary representation.
+
+        Args:
+            data (dict): The dictionary representation of the state.
+
+        Returns:
+            PolarizationState: The polarization state.
+        """
+        state = cls(data['is_polarized'], data.get('Ex'), data.get('Ey'),
+                    data.get('phase_x'), data.get('phase_y'))
+        # the stored field components are already normalized
+        state.Ex = data.get('Ex')
+        state.Ey = data.get('Ey')
+        return state
+
 
 def create_polarization(pol_type: str):
     """
